@@ -281,6 +281,12 @@ def _sec_gcxs_site(gcxs_tree, fname):
                f"{'true' if g == 'check_consistent_fill_value' else 'false'}.")
     out.append(_tr_expr(f"site_gcxs_{fname}_axis_ndim", _axis_norm_ndim(fn), ["ndim"],
                         {"arrays[0].ndim": "Ok ndim"}, f"{GCXS_COMMON}:{fname} second argument of normalize_axis"))
+    # index-pointer width: the largest number the pointer's dtype must be able to hold (entries AND row numbers)
+    out.append(_tr_expr(f"site_gcxs_{fname}_indptr_needed", _assign_value(fn, "needed"), ["total_nnz", "ptr_len"],
+                        {"indptr.shape[0]": "Ok ptr_len"}, f"{GCXS_COMMON}:{fname} `needed`"))
+    for line in ("total_nnz = sum((int(arr.nnz) for arr in arrays))",
+                 "if not can_store(indptr.dtype, needed):\n    indptr = indptr.astype(np.min_scalar_type(needed))"):
+        _require_line(fn, line)
     return out, {"fill": kws["fill_value"], "guard": g}
 
 
